@@ -22,6 +22,9 @@ def run(ctx):
     ar.fresh_part_rule(ctx, 'R7.2')
     ar.no_remove_rename_rule(ctx, 'R7.3')
     ar.compat_checks_rule(ctx, 'R7.4')
+    ar.index_normalisation_rule(ctx, 'R7.6')
+    from . import c02
+    c02.r21(ctx)
     from . import callsigs as _cs
     _cs.general_rules(ctx, 'R7', ['writer.write', 'writer.write_simple', 'writer.write_multi', 'writer.partition_on_columns', 'writer.make_part_file', 'api.ParquetFile.write_row_groups', 'writer.write_common_metadata', 'writer.consolidate_categories'])
     ar.single_pass_data_rule(ctx, 'R7.5')
